@@ -214,9 +214,17 @@ class FnPts:
         s = self.w.summ.get(c)
         if s is None:
             return ({UNKNOWN} if is_ptr(i["t"]) and not is_pure_external(c) else (set() if is_ptr(i["t"]) else None)), False
+        g = self.w.mod.functions.get(c) if hasattr(self.w, "mod") else None
+        def copies_pointers(r):
+            """the callee copies the *contents* of a `void *` / byte-pointer parameter (e.g. a dup helper around memcpy): whether pointers
+            travel with them depends on what this caller passes - decided from the actual argument's type, like a direct memcpy"""
+            if not (isinstance(r, tuple) and r[0] == "arg" and len(r) > 2 and r[2] >= 1 and r[1] < i["nargs"]): return True
+            if g is None or r[1] >= len(g.params) or g.params[r[1]]["t"] != "i8*": return True
+            return self.may_hold_ptrs(i.ops[r[1]])
         for reg, S in s.stores_ptr.items():
             dst = self.map_callee_root(reg, i); src = set()
-            for r in S: src |= self.map_callee_root(r, i)
+            for r in S:
+                if copies_pointers(r): src |= self.map_callee_root(r, i)
             if src: ch |= self.add_contents(dst, src)
         new = None
         if is_ptr(i["t"]) or i["t"].startswith(("{", "%")):
@@ -224,7 +232,8 @@ class FnPts:
             for r in s.ret: new |= self.map_callee_root(r, i)
             if ("fresh",) in s.ret and s.ret_contents:
                 src = set()
-                for r in s.ret_contents: src |= self.map_callee_root(r, i)
+                for r in s.ret_contents:
+                    if copies_pointers(r): src |= self.map_callee_root(r, i)
                 ch |= self.add_contents({("heap", i.id)}, src)
         return new, ch
 
